@@ -422,7 +422,7 @@ func main() {
 			r.Notes = append(r.Notes, fmt.Sprintf("alphabet=%v depth<=%d", ops, depth))
 		}}}
 	for _, c := range concs {
-		scs = append(scs, concScenario(c, vrt.Bounds{Dev: 1, Seconds: 100}, vrt.Bounds{Dev: 2, Seconds: 900}))
+		scs = append(scs, concScenario(c, vrt.Bounds{Dev: 1, Seconds: 100}, vrt.Bounds{Dev: 2, Seconds: 100}))
 	}
 	vrt.Main(scs)
 }
